@@ -66,7 +66,7 @@ mutual
     /-- `*S → *T` (Pointer): `if s != nil { x := inner(*s); t = &x }` -/
     | ptrPtr (te : Ty) (inner : Conv)
     /-- `*S → T` with useZeroValueOnPointerInconsistency (SourcePointer): `if s != nil { t = inner(*s) }` -/
-    | srcPtr (inner : Conv)
+    | srcPtr (t : Ty) (inner : Conv)
     /-- `S → *T` (TargetPointer / BasicTargetPointerRule): `x := inner(s); &x` -/
     | tgtPtr (te : Ty) (inner : Conv)
     /-- list: `make` present?, nil guard present?, element conversion.
